@@ -3,6 +3,9 @@
 // Oracle: independent days-from-civil / civil-from-days (Hinnant's algorithms, written here),
 // itself cross-checked against python3 datetime by the driver on the dumped records.
 #include "common/runner.h"
+#include <mutex>
+#include <atomic>
+#include <thread>
 #include <asl/Date.h>
 #include <math.h>
 
@@ -209,6 +212,23 @@ static void mode_offsets(vf::Ctx& c)
 			forms.push_back(vf::fmt("%04d-%02d-%02dT%02d:%02d:%02d%c%02d", y, m, d, hh, mi, ss, sg, oh));
 			forms.push_back(vf::fmt("%04d%02d%02dT%02d%02d%02d%c%02d", y, m, d, hh, mi, ss, sg, oh));
 		}
+		// minute precision (seconds omitted): the instant is the one with :00 seconds
+		double wantMin = want - ss, localMin = local - ss;
+		std::vector<std::string> mforms;
+		mforms.push_back(vf::fmt("%04d-%02d-%02dT%02d:%02d%c%02d:%02d", y, m, d, hh, mi, sg, oh, om));
+		mforms.push_back(vf::fmt("%04d-%02d-%02dT%02d:%02d%c%02d%02d", y, m, d, hh, mi, sg, oh, om));
+		if (om == 0) mforms.push_back(vf::fmt("%04d-%02d-%02dT%02d:%02d%c%02d", y, m, d, hh, mi, sg, oh));
+		for (auto& f : mforms) {
+			Date p(exact(f));
+			if (!(fabs(p.time() - wantMin) < 0.0005)) { c.desc("Date('" + f + "')"); c.fail("offset.minute-precision", vf::fmt("parsed %.3f want %.3f", p.time(), wantMin)); }
+			c.evals(1);
+		}
+		{
+			std::string f = vf::fmt("%04d-%02d-%02dT%02d:%02dZ", y, m, d, hh, mi);
+			Date p(exact(f));
+			if (!(fabs(p.time() - localMin) < 0.0005)) { c.desc("Date('" + f + "')"); c.fail("utc.minute-precision", vf::fmt("parsed %.3f want %.3f", p.time(), localMin)); }
+			c.evals(1);
+		}
 		for (auto& f : forms) {
 			Date p(exact(f));
 			if (!(fabs(p.time() - want) < 0.0005)) {
@@ -283,6 +303,50 @@ static void mode_junk(vf::Ctx& c)
 	if (c.want_sample()) c.sample("e.g. " + c.curdesc());
 }
 
+// several threads formatting and parsing at once, each on its own Date and String objects: nothing is shared by the
+// caller, so every valid text must still parse to its instant while other threads parse valid texts and junk
+// (goes beyond the stated quantifier, which has no schedules; a parser that keeps process-wide state fails here)
+static void mode_parse_mt(vf::Ctx& c)
+{
+	int T = c.rng.range(2, 6), rounds = (int)c.opt->param("rounds", 300);
+	uint64_t seed = c.rng.next();
+	c.desc(vf::fmt("%d threads x %d rounds: HTTP / FULL / LONG format+parse of random instants interleaved with HTTP-shaped junk (unknown month words)", T, rounds));
+	std::atomic<int> bad(0), done(0);
+	std::mutex mu;
+	std::string why;
+	std::vector<std::thread> th;
+	for (int t = 0; t < T; t++)
+		th.emplace_back([&, t]() {
+			vf::Rng r(vf::mix(seed, t));
+			static const char* words[] = {"Foo", "Xyz", "Janu", "mar", "DEC", "Sept", "Mai", "Okt", "Q", "Month", "Abc", "Zzz", "Febr", "Jul.", "N0v", "apr"};
+			for (int k = 0; k < rounds; k++) {
+				bool junk = (t & 1) ? r.chance(0.6) : r.chance(0.1);
+				if (junk) {
+					std::string w = words[r.below(16)];
+					if (r.chance(0.5)) w += (char)('a' + r.below(26));
+					std::string s = vf::fmt("Tue, %02d %s %04d %02d:%02d:%02d GMT", (int)r.range(1, 28), w.c_str(), (int)r.range(1990, 2030), (int)r.range(0, 23), (int)r.range(0, 59), (int)r.range(0, 59));
+					Date p(exact(s));
+					volatile double x = p.time();
+					(void)x;
+					continue;
+				}
+				long long day = DAY0 + 400 + (long long)(r.next() % (uint64_t)(DAYN - DAY0 - 800));
+				double tm = (double)day * 86400.0 + r.range(0, 86399);
+				Date d(tm);
+				Date::Format f = r.chance(0.6) ? Date::HTTP : r.chance(0.5) ? Date::FULL : Date::LONG;
+				String txt = d.toUTCString(f);
+				Date p(txt);
+				if (!(fabs(p.time() - tm) < 0.0005)) { bad++; std::lock_guard<std::mutex> l(mu); if (why.empty()) why = vf::fmt("thread %d round %d: %.0f formatted as '%s' parsed back as %.3f", t, k, tm, *txt, p.time()); }
+			}
+			done++;
+		});
+	for (auto& x : th) x.join();
+	if (bad) c.fail("parse-mt.roundtrip", vf::fmt("%d wrong; ", (int)bad) + why);
+	c.evals((uint64_t)T * rounds);
+	c.distinct(seed);
+	if (c.want_sample()) c.sample(c.curdesc());
+}
+
 int main(int argc, char** argv)
 {
 	setenv("TZ", "UTC", 1);
@@ -294,6 +358,7 @@ int main(int argc, char** argv)
 	R.add("millis", mode_millis, "FULL format millisecond round trip");
 	R.add("offsets", mode_offsets, "all zone offsets, fractions");
 	R.add("junk", mode_junk, "arbitrary strings");
+	R.add("parse_mt", mode_parse_mt, "threads formatting/parsing valid dates and HTTP-shaped junk at once");
 	R.setup = [](const vf::Options& o) {
 		if (o.param("dump", 0)) recf = fopen((o.out + "/records.txt").c_str(), "w");
 	};
